@@ -161,8 +161,36 @@ def _load_dir(d, files, case, again=True, write=True):
             (d / name).write_text(text)
     if write:
         extra = ('template_scaling = %r\n' % case['template_scaling']) if case.get('template_scaling') else ''
-        (d / 'params.py').write_text('dat_path = %r\nn_channels_dat = %d\ndtype = "int16"\noffset = %d\nsample_rate = %r\nhp_filtered = False\n%s' % (
-            dat, case['ncd'], case['offset'], case['rate'], extra))
+        text = 'dat_path = %r\nn_channels_dat = %d\ndtype = "int16"\noffset = %d\nsample_rate = %r\nhp_filtered = False\n%s' % (
+            dat, case['ncd'], case['offset'], case['rate'], extra)
+        if case.get('omit_defaults') and case['offset'] == 0:
+            # optional parameters left out of params.py where they have their default value
+            text = text.replace('offset = 0\n', '').replace('hp_filtered = False\n', '')
+        (d / 'params.py').write_text(text)
+    if write and again and case.get('decoy'):
+        # ANOTHER dataset loaded first in the same process, with non-default optional parameters (header offset,
+        # template scaling): nothing of it may show in the model of the judged directory
+        dd = d.parent / (d.name + '_other')
+        dd.mkdir(exist_ok=True)
+        for name, f in files.items():
+            np.save(dd / name, _arr(f))
+        dat2 = []
+        for i, b in enumerate(_raw_bytes(case)):
+            (dd / ('raw%d.dat' % i)).write_bytes(b'\2\2' + b)
+            dat2.append('raw%d.dat' % i)
+        for name, text in (case.get('text') or {}).items():
+            (dd / name).write_text(text)
+        (dd / 'params.py').write_text('dat_path = %r\nn_channels_dat = %d\ndtype = "int16"\noffset = %d\nsample_rate = %r\nhp_filtered = True\n'
+                                      'template_scaling = 7.0\n' % (dat2, case['ncd'], case['offset'] + 2, case['rate'] * 2))
+        try:
+            m0 = load_model(dd / 'params.py')
+            try:
+                _use(m0)
+            except Exception:  # noqa
+                pass
+            m0.close()
+        except Exception:  # noqa
+            pass
     before = _hash(d)
     m = load_model(d / 'params.py')
     try:
@@ -572,6 +600,10 @@ def make_case(rng, i):
             files['spike_depth_raw.npy'] = F('float32', v(ns), [float(rng.randrange(5)) for _ in range(ns)])
             tags.append('extra_attr_underscore_names')
     if rng.random() < .2:
+        # a per-spike attribute holding several values per spike (KiloSort 4 writes spike_positions.npy of shape (n, 2))
+        files['spike_positions.npy'] = F('float32', [ns, 2], [float(rng.randrange(40)) for _ in range(ns * 2)])
+        tags.append('extra_attr_2d')
+    if rng.random() < .2:
         files['spike_wrong.npy'] = F('float64', [ns + 1], [0.] * (ns + 1)); tags.append('extra_attr_wrong_length')
     if i % 23 == 11 and not sparse:
         # sparse templates with ONE local channel: the stored (nt, nsw, 1) / (nt, 1) arrays lose their last dimension
@@ -594,6 +626,12 @@ def make_case(rng, i):
             tags.append('no_spike_clusters')
         tags.append('no_templates')
     case = dict(p=PID, files=files, rate=rate, ncd=ncd, offset=rng.pick([0, 0, 6]), tags=tags)
+    if rng.random() < .3:
+        case['omit_defaults'] = True
+        tags.append('params.py without the optional entries')
+    if rng.random() < .25:
+        case['decoy'] = True
+        tags.append('another dataset loaded before in the same process')
     if rng.random() < .5:
         n_raw = rng.randrange(70, 90)
         k = rng.randrange(1, 4)
